@@ -148,7 +148,13 @@ def gen(rng, tier):
     singleton = {'key': rng.choice(['sk7', 'sk7/deep']),
                  'ambient': rng.choice([[], [], ['amb']]),
                  'bind_z': rng.random() < 0.5}
-  return {'specs': specs, 'ops': ops, 'static': static, 'singleton': singleton}
+  namesake = None
+  if rng.random() < 0.15:
+    namesake = {'scope': rng.choice([[], [], ['ns']]),
+                'read_between': rng.random() < 0.8,
+                'also_config_str': rng.random() < 0.4}
+  return {'specs': specs, 'ops': ops, 'static': static, 'singleton': singleton,
+          'namesake': namesake}
 
 
 class _Mode(__import__('enum').IntEnum):
@@ -414,6 +420,8 @@ def run(case):
                             '--- first\n%s\n--- replay\n%s' % (final, texts2[-1])})
   if case.get('singleton') and not viol:
     viol += _singleton_scenario(case['singleton'], lg)
+  if case.get('namesake') and not viol:
+    viol += _namesake_scenario(case['namesake'], lg)
   seen = set()
   uniq = []
   for x in viol:
@@ -508,7 +516,74 @@ def _singleton_scenario(sc, lg):
   return viol
 
 
+def _namesake_scenario(ns, lg):
+  """A configurable is called and the operative text read while its short name
+  is unique; then a namesake in another module is registered and called: the
+  text read afterwards still parses and replays."""
+  gin = world.gin
+  got = {}
+
+  def make(tag, default):
+    def twin7(a=default, b='db'):
+      got.setdefault(tag, []).append((a, b))
+    return twin7
+
+  def setup(both):
+    world.reset()
+    got.clear()
+    fa = gin.configurable('twin7', module='mm.pa')(make('pa', 1))
+    fb = gin.configurable('twin7', module='mm.pb')(make('pb', 2)) if both \
+        else None
+    return fa, fb
+  fa, fb = setup(False)
+  try:
+    gin.bind_parameter('twin7.a', 5)
+    with gin.config_scope(ns['scope'] or None):
+      fa()
+    if ns['read_between']:
+      gin.operative_config_str()
+      if ns['also_config_str']:
+        gin.config_str()
+    fb = gin.configurable('twin7', module='mm.pb')(make('pb', 2))
+    gin.bind_parameter('mm.pb.twin7.b', 'for-pb')
+    with gin.config_scope(ns['scope'] or None):
+      fa()
+      fb()
+    text = gin.operative_config_str()
+  except Exception as e:  # pylint: disable=broad-except
+    return [{'oracle': 'C07.call_succeeds',
+             'sig': [ID, 'C07.call_succeeds', 'namesake', type(e).__name__],
+             'msg': 'namesake scenario %r raised %r' % (ns, e)}]
+  first = {k: v[-1] for k, v in got.items()}
+  lg.add('namesake', ns, text)
+  problems = []
+  fa, fb = setup(True)
+  try:
+    gin.parse_config(text)
+    with gin.config_scope(ns['scope'] or None):
+      fa()
+      fb()
+    second = {k: v[-1] for k, v in got.items()}
+    if second != first:
+      problems.append('replayed calls received %r, first %r' % (second, first))
+  except Exception as e:  # pylint: disable=broad-except
+    problems = ['%s: %s' % (type(e).__name__, probes.scrub(str(e))[:300])]
+  if problems:
+    return [{'oracle': 'C07.text_parses',
+             'sig': [ID, 'C07.text_parses', 'namesake-registered-later'],
+             'msg': 'mm.pa.twin7 called%s, then mm.pb.twin7 registered and '
+                    'both called: the operative text does not replay: %s\n'
+                    '--- operative text\n%s' %
+                    (' and the text read' if ns['read_between'] else '',
+                     problems, text)}]
+  return []
+
+
 def shrinks(case):
+  if case.get('namesake'):
+    c = copy.deepcopy(case)
+    c['namesake'] = None
+    yield c
   if case.get('singleton'):
     c = copy.deepcopy(case)
     c['singleton'] = None
